@@ -415,6 +415,9 @@ func (w *W) step(s *State) {
 		w.jump(s, fr, fr.block.Succs[0])
 	case *ssa.If:
 		ct := term(w.get(s, fr, x.Cond))
+		if !ct.IsConst() && w.tryCondDAG(s, fr, ct) {
+			return
+		}
 		if !ct.IsConst() && w.tryIfConvert(s, fr, ct) {
 			return
 		}
